@@ -229,16 +229,33 @@ Qed.
 Lemma modes_list_NoDup a n fixed : NoDup (modes_list a n fixed).
 Proof. unfold modes_list. apply NoDup_filter, seq_NoDup. Qed.
 
+Lemma nth_map2 {A B C} (f : A -> B -> C) (dA : A) (dB : B) (dC : C) : forall l1 l2 k, k < length l1 -> k < length l2 ->
+  nth k (map2 f l1 l2) dC = f (nth k l1 dA) (nth k l2 dB).
+Proof.
+  unfold map2. induction l1 as [|x l1 IH]; intros [|y l2] k H1 H2; simpl in *; try lia.
+  destruct k as [|k]; [reflexivity|]. apply IH; lia.
+Qed.
+Lemma length_map2 {A B C} (f : A -> B -> C) l1 l2 : length (map2 f l1 l2) = Nat.min (length l1) (length l2).
+Proof. unfold map2. now rewrite map_length, combine_length. Qed.
+
 Section SkelFacts.
-  Context {M W : Type}.
-  Variable upd : nat -> nat -> st M W -> M.
-  Variable stop : nat -> st M W -> bool.
-  Variable normf : st M W -> st M W.
+  Context {M W X : Type}.
+  Variable upd : nat -> nat -> st M W X -> M * X.
+  Variable stop : nat -> st M W X -> bool.
+  Variable normf : st M W X -> st M W X.
+  Variable pre : nat -> st M W X -> st M W X.
+  Variable pre_on : nat -> bool.
+  Variable post : nat -> st M W X -> X.
+  Variable ls_on : nat -> bool.
+  Variable ls_accept : nat -> st M W X -> st M W X -> bool.
+  Variable lsf : nat -> st M W X -> M -> M -> M.
+  Variable lsw : nat -> st M W X -> W -> W -> W.
+  Variable lsx : nat -> st M W X -> st M W X -> X.
 
   Notation step := (step upd normf false).
   Notation sweep := (sweep upd normf false).
-  Notation iterate := (iterate upd stop normf false).
-  Notation run := (run upd stop normf false).
+  Notation iterate := (iterate upd stop normf false pre pre_on post ls_on ls_accept lsf lsw lsx).
+  Notation run := (run upd stop normf false pre pre_on post ls_on ls_accept lsf lsw lsx).
 
   Lemma step_eq a it ml s m : step a it ml s m = set_fac s m (upd it m s).
   Proof. reflexivity. Qed.
@@ -258,68 +275,138 @@ Section SkelFacts.
   Lemma fold_step_wts a it ml : forall l s, wts (fold_left (step a it ml) l s) = wts s.
   Proof. induction l as [|k l IH]; intros s; simpl; [reflexivity|]. now rewrite IH, step_eq. Qed.
 
-  Lemma iterate_other a ml d m : ~ In m ml -> forall b it s,
+  (* what the two hooks must satisfy for mode m (stated for the hooks of the algorithm that has them) *)
+  Definition pre_keeps (a : algo) (m : nat) (d : M) : Prop :=
+    has_hooks a = true -> forall it s, pre_on it = true -> nth m (facs (pre it s)) d = nth m (facs s) d.
+  Definition pre_keeps_length (a : algo) : Prop :=
+    has_hooks a = true -> forall it s, pre_on it = true -> length (facs (pre it s)) = length (facs s).
+  Definition ls_fixpoint (a : algo) : Prop := has_hooks a = true -> forall it s x, lsf it s x x = x.
+
+  Lemma ls_point_other it s0 s1 d m : (forall s x, lsf it s x x = x) -> length (facs s1) = length (facs s0) ->
+    nth m (facs s1) d = nth m (facs s0) d ->
+    nth m (facs (ls_point lsf lsw lsx it s0 s1)) d = nth m (facs s0) d.
+  Proof.
+    intros Hf Hl He. unfold ls_point; cbn [facs]. destruct (lt_dec m (length (facs s0))) as [Hm|Hm].
+    - rewrite (nth_map2 _ d d d) by lia. rewrite He. apply Hf.
+    - rewrite !nth_overflow; auto; try lia. rewrite length_map2. lia.
+  Qed.
+
+  (* one iteration of the loop body leaves the factor of a mode outside the sweep list where it was *)
+  Lemma iterate_other a ml d m : ~ In m ml -> pre_keeps a m d -> ls_fixpoint a -> forall b it s,
     nth m (facs (iterate a b it ml s)) d = nth m (facs s) d.
   Proof.
-    intros Hn. induction b as [|b IH]; intros it s; simpl; [reflexivity|].
-    destruct (stop it _); [| rewrite IH]; apply fold_step_other; exact Hn.
+    intros Hn Hpre Hls. induction b as [|b IH]; intros it s; cbn [WarmStart.iterate]; [reflexivity|].
+    set (s0 := if has_hooks a && pre_on it then pre it s else s).
+    assert (H0 : nth m (facs s0) d = nth m (facs s) d).
+    { unfold s0. destruct (has_hooks a) eqn:Eh; cbn [andb]; [|reflexivity]. destruct (pre_on it) eqn:Ep; [|reflexivity]. now apply Hpre. }
+    set (sw := sweep a it ml s0).
+    assert (Hsw : nth m (facs sw) d = nth m (facs s0) d) by (apply fold_step_other; exact Hn).
+    set (s1 := mkst (wts sw) (facs sw) (post it sw)).
+    set (s2 := if has_hooks a && ls_on it && ls_accept it s0 s1 then ls_point lsf lsw lsx it s0 s1 else s1).
+    assert (H2 : nth m (facs s2) d = nth m (facs s0) d).
+    { unfold s2. destruct (has_hooks a) eqn:Eh; cbn [andb]; [|exact Hsw].
+      destruct (ls_on it && ls_accept it s0 s1); [|exact Hsw].
+      apply ls_point_other; [intros; now apply Hls | apply fold_step_length | exact Hsw]. }
+    destruct (stop it s2); [| rewrite IH]; congruence.
   Qed.
-  Lemma iterate_length a ml : forall b it s, length (facs (iterate a b it ml s)) = length (facs s).
+  Lemma iterate_length a ml : pre_keeps_length a -> forall b it s, length (facs (iterate a b it ml s)) = length (facs s).
   Proof.
-    induction b as [|b IH]; intros it s; simpl; [reflexivity|].
-    destruct (stop it _); [| rewrite IH]; apply fold_step_length.
+    intros Hpre. induction b as [|b IH]; intros it s; cbn [WarmStart.iterate]; [reflexivity|].
+    set (s0 := if has_hooks a && pre_on it then pre it s else s).
+    assert (H0 : length (facs s0) = length (facs s)).
+    { unfold s0. destruct (has_hooks a) eqn:Eh; cbn [andb]; [|reflexivity]. destruct (pre_on it) eqn:Ep; [|reflexivity]. now apply Hpre. }
+    set (sw := sweep a it ml s0).
+    assert (Hsw : length (facs sw) = length (facs s0)) by apply fold_step_length.
+    set (s1 := mkst (wts sw) (facs sw) (post it sw)).
+    set (s2 := if has_hooks a && ls_on it && ls_accept it s0 s1 then ls_point lsf lsw lsx it s0 s1 else s1).
+    assert (H2 : length (facs s2) = length (facs s0)).
+    { unfold s2. destruct (has_hooks a && ls_on it && ls_accept it s0 s1); [|exact Hsw].
+      unfold ls_point; cbn [facs]. rewrite length_map2. unfold s1; cbn [facs]. lia. }
+    destruct (stop it s2); [| rewrite IH]; congruence.
   Qed.
-  Lemma iterate_wts a ml : forall b it s, wts (iterate a b it ml s) = wts s.
+  (* without hooks (every algorithm but parafac) an empty sweep list leaves weights and factors alone; the bookkeeping
+     (error history) still moves *)
+  Lemma iterate_nil a : has_hooks a = false -> forall b it s,
+    facs (iterate a b it [] s) = facs s /\ wts (iterate a b it [] s) = wts s.
   Proof.
-    induction b as [|b IH]; intros it s; simpl; [reflexivity|].
-    destruct (stop it _); [| rewrite IH]; apply fold_step_wts.
+    intros Hh. induction b as [|b IH]; intros it s; cbn [WarmStart.iterate]; [split; reflexivity|].
+    rewrite Hh. cbn [andb]. change (sweep a it [] s) with s.
+    destruct (stop it _); [split; reflexivity|]. destruct (IH (S it) (mkst (wts s) (facs s) (post it s))) as [H1 H2].
+    rewrite H1, H2. split; reflexivity.
   Qed.
-  Lemma iterate_nil a : forall b it s, iterate a b it [] s = s.
-  Proof. induction b as [|b IH]; intros it s; simpl; [reflexivity|]. change (sweep a it [] s) with s. destruct (stop it s); [reflexivity | apply IH]. Qed.
 
-  (* fixed modes: every budget, every update rule, every stopping decision *)
-  Theorem run_fixed a n fixed budget tol s s' d m :
+  (* fixed modes: every budget, every update rule, every stopping decision, mask / sparsity / dual bookkeeping, line search;
+     the orthogonalise hook only if it leaves the mode alone *)
+  Theorem run_fixed_hooks a n fixed budget tol s s' d m :
+    pre_keeps a m d -> ls_fixpoint a ->
     run a n fixed budget tol s = Ok s' -> In m (eff_fixed a n fixed) ->
     nth m (facs s') d = nth m (facs s) d.
   Proof.
-    unfold WarmStart.run. destruct (shortcut a && list_eqb fixed (seq 0 n)); [intros [= <-]; reflexivity|].
+    intros Hpre Hls. unfold WarmStart.run. destruct (shortcut a && list_eqb fixed (seq 0 n)); [intros [= <-]; reflexivity|].
     destruct (empty_returns a && (length (modes_list a n fixed) =? 0)); [intros [= <-]; reflexivity|].
     destruct (needs_mode a tol && (0 <? budget) && (length (modes_list a n fixed) =? 0)); [discriminate|].
-    intros [= <-] Hin. apply iterate_other. intros H. apply modes_list_In in H. tauto.
+    intros [= <-] Hin. apply iterate_other; auto. intros H. apply modes_list_In in H. tauto.
   Qed.
 
-  (* the same at user level: the list the caller passed, minus the documented last-mode rule *)
-  Theorem run_fixed_user a n fixed budget tol s s' d m :
+  Theorem run_fixed_user_hooks a n fixed budget tol s s' d m :
+    pre_keeps a m d -> ls_fixpoint a ->
     run a n fixed budget tol s = Ok s' -> In m fixed -> (drops_last a = true -> m <> n - 1) ->
     nth m (facs s') d = nth m (facs s) d.
-  Proof. intros H Hin Hl. eapply run_fixed; eauto. now apply eff_fixed_keeps. Qed.
+  Proof. intros Hp Hl H Hin Hlast. eapply run_fixed_hooks; eauto. now apply eff_fixed_keeps. Qed.
 
-  Theorem run_shape a n fixed budget tol s s' :
-    run a n fixed budget tol s = Ok s' -> length (facs s') = length (facs s) /\ wts s' = wts s.
+  Theorem run_shape a n fixed budget tol s s' : pre_keeps_length a ->
+    run a n fixed budget tol s = Ok s' -> length (facs s') = length (facs s).
   Proof.
-    unfold WarmStart.run. destruct (shortcut a && list_eqb fixed (seq 0 n)); [intros [= <-]; auto|].
+    intros Hpre. unfold WarmStart.run. destruct (shortcut a && list_eqb fixed (seq 0 n)); [intros [= <-]; auto|].
     destruct (empty_returns a && (length (modes_list a n fixed) =? 0)); [intros [= <-]; auto|].
     destruct (needs_mode a tol && (0 <? budget) && (length (modes_list a n fixed) =? 0)); [discriminate|].
-    intros [= <-]. split; [apply iterate_length | apply iterate_wts].
+    intros [= <-]. now apply iterate_length.
   Qed.
 
   Theorem run_all_fixed_shortcut a n budget tol s : shortcut a = true -> run a n (seq 0 n) budget tol s = Ok s.
   Proof. intros H. unfold WarmStart.run. now rewrite H, list_eqb_refl. Qed.
 
-  (* without the shortcut: if no mode is left to update and the call returns, it returns the init *)
-  Theorem run_nothing_to_update a n fixed budget tol s s' :
-    (forall m, m < n -> In m (eff_fixed a n fixed)) -> run a n fixed budget tol s = Ok s' -> s' = s.
+  (* without the shortcut: if no mode is left to update and the call returns, it returns the initial weights and factors *)
+  Theorem run_nothing_to_update a n fixed budget tol s s' : has_hooks a = false ->
+    (forall m, m < n -> In m (eff_fixed a n fixed)) -> run a n fixed budget tol s = Ok s' ->
+    facs s' = facs s /\ wts s' = wts s.
   Proof.
-    intros Hall. unfold WarmStart.run. destruct (shortcut a && list_eqb fixed (seq 0 n)); [intros [= <-]; reflexivity|].
-    rewrite (modes_list_all_fixed _ _ _ Hall). destruct (empty_returns a && _); [intros [= <-]; reflexivity|].
+    intros Hh Hall. unfold WarmStart.run. destruct (shortcut a && list_eqb fixed (seq 0 n)); [intros [= <-]; auto|].
+    rewrite (modes_list_all_fixed _ _ _ Hall). destruct (empty_returns a && _); [intros [= <-]; auto|].
     destruct (needs_mode a tol && (0 <? budget) && _); [discriminate|].
-    intros [= <-]. apply iterate_nil.
+    intros [= <-]. now apply iterate_nil.
   Qed.
 End SkelFacts.
 
-(* zero budget: for every normalisation setting *)
-Theorem run_zero_budget {M W} upd stop normf normalize a n fixed tol (s : st M W) :
-  run upd stop normf normalize a n fixed 0 tol s = Ok s.
+(* the hooks off, or an algorithm without hooks: the plain statements *)
+Section SkelPlain.
+  Context {M W X : Type}.
+  Variable upd : nat -> nat -> st M W X -> M * X.
+  Variable stop : nat -> st M W X -> bool.
+  Variable normf : st M W X -> st M W X.
+  Variable pre : nat -> st M W X -> st M W X.
+  Variable post : nat -> st M W X -> X.
+  Variable ls_on : nat -> bool.
+  Variable ls_accept : nat -> st M W X -> st M W X -> bool.
+  Variable lsf : nat -> st M W X -> M -> M -> M.
+  Variable lsw : nat -> st M W X -> W -> W -> W.
+  Variable lsx : nat -> st M W X -> st M W X -> X.
+
+  (* orthogonalise off (the default), any line-search setting whose candidate formula fixes equal arguments *)
+  Theorem run_fixed a n fixed budget tol s s' d m : (has_hooks a = true -> forall it s x, lsf it s x x = x) ->
+    run upd stop normf false pre (fun _ => false) post ls_on ls_accept lsf lsw lsx a n fixed budget tol s = Ok s' ->
+    In m (eff_fixed a n fixed) -> nth m (facs s') d = nth m (facs s) d.
+  Proof. intros Hls. apply run_fixed_hooks; [intros _ it s0 H; discriminate | exact Hls]. Qed.
+
+  Theorem run_fixed_user a n fixed budget tol s s' d m : (has_hooks a = true -> forall it s x, lsf it s x x = x) ->
+    run upd stop normf false pre (fun _ => false) post ls_on ls_accept lsf lsw lsx a n fixed budget tol s = Ok s' ->
+    In m fixed -> (drops_last a = true -> m <> n - 1) -> nth m (facs s') d = nth m (facs s) d.
+  Proof. intros Hls. apply run_fixed_user_hooks; [intros _ it s0 H; discriminate | exact Hls]. Qed.
+End SkelPlain.
+
+(* zero budget: for every normalisation setting and every hook *)
+Theorem run_zero_budget {M W X} upd stop normf normalize pre pre_on post ls_on ls_accept lsf lsw lsx a n fixed tol (s : st M W X) :
+  run upd stop normf normalize pre pre_on post ls_on ls_accept lsf lsw lsx a n fixed 0 tol s = Ok s.
 Proof.
   unfold run. destruct (shortcut a && list_eqb fixed (seq 0 n)); [reflexivity|].
   destruct (empty_returns a && _); [reflexivity|].
@@ -328,15 +415,11 @@ Qed.
 
 (* non_negative_parafac_hals with nothing left to update returns the initialisation: every budget, every tolerance,
    every normalisation setting (the return precedes the loop) *)
-Theorem hals_all_fixed_returns {M W} upd stop normf normalize n fixed budget tol (s : st M W) :
-  (forall m, m < n -> In m fixed) -> run upd stop normf normalize NNHals n fixed budget tol s = Ok s.
+Theorem hals_all_fixed_returns {M W X} upd stop normf normalize pre pre_on post ls_on ls_accept lsf lsw lsx n fixed budget tol (s : st M W X) :
+  (forall m, m < n -> In m fixed) ->
+  run upd stop normf normalize pre pre_on post ls_on ls_accept lsf lsw lsx NNHals n fixed budget tol s = Ok s.
 Proof.
   intros Hall. unfold run. cbn [shortcut andb empty_returns].
   rewrite (modes_list_all_fixed NNHals n fixed); [reflexivity|].
   intros m Hm. unfold eff_fixed. cbn [drops_last andb]. auto.
 Qed.
-
-(* determinism: the run is a function of the initial state only -- equal starts, equal iterates *)
-Theorem run_same_start {M W} upd stop normf normalize a n fixed budget tol (s1 s2 : st M W) :
-  s1 = s2 -> run upd stop normf normalize a n fixed budget tol s1 = run upd stop normf normalize a n fixed budget tol s2.
-Proof. now intros ->. Qed.
